@@ -1,18 +1,20 @@
 """C04 - generator of one-store CbCore programs (S-expressions, grammar in ocaml/lang_driver.ml).
 
 matrix(rng): every (integer type) x (store path) x (boundary value kind) combination, one checked
-store per program; the stored cell is read back and printed afterwards, so a kept / wrapped /
-clamped value is visible in stdout and a rejected store in the exit class.
+store per program. The stored cell is read back and printed FIRST, then its neighbours (which must
+stay 0), so a kept / wrapped / clamped value is visible in stdout and a rejected store in the exit
+class. Each case carries the query that asks the Mech model (bin/c04_model mech) what today's code
+does with exactly that store.
 """
 import gen_core
 
-TYPES = ["tiny", "short", "int", "long", "char", "utiny", "ushort", "uint", "ulong", "uchar"]
+TYPES = ["tiny", "short", "int", "long", "char", "utiny", "ushort", "uint", "ulong"]   # `unsigned char` is rejected by the parser (probed separately)
 RANGES = {t: gen_core.RANGES[t] for t in TYPES}
 I64 = (-2**63, 2**63 - 1)
 
 # store paths; the tag after ':' is the way the value reaches the store
 PATHS = [
-    "decl:lit", "decl:var", "decl:expr",
+    "decl:lit", "decl:var", "decl:expr", "for-init:lit",
     "assign:lit", "assign:var", "assign:expr",
     "compound:add", "compound:sub", "compound:mul",
     "incdec-var:pre", "incdec-var:post",
@@ -23,9 +25,16 @@ PATHS = [
     "elemN:lit2", "elemN:var2", "elemN:lit3",
     "literal1:lit", "literal1:var", "literalN:lit",
     "global:scalar", "global:array",
-    "static:lit", "for-init:lit",
+    "static:lit",
     "from-elemN:decl", "from-elemN:assign", "from-elemN:return",
 ]
+# matrix path -> path of the Mech model (coq/C04/Model.v [path])
+MECH_PATH = {
+    "decl": "decl", "for-init": "decl", "assign": "assign", "compound": "compound", "incdec-var": "incdec-var",
+    "incdec-elem": "incdec-elem1", "arg": "arg", "return": "return", "elem1": "elem1", "elem1-compound": "elem1-compound",
+    "elemN": "elemN", "literal1": "lit1", "literalN": "litN", "global:scalar": "global-scalar", "global:array": "global-arr",
+    "static": "static", "from-elemN:decl": "decl", "from-elemN:assign": "assign-from-elemN", "from-elemN:return": "return",
+}
 
 KINDS = ["min-1", "min", "min+1", "-1", "0", "1", "max-1", "max", "max+1", "rand-in", "rand-above", "rand-below"]
 
@@ -36,11 +45,11 @@ def values_for(t, rng):
           "max-1": hi - 1, "max": hi, "max+1": hi + 1,
           "rand-in": rng.randint(lo, hi)}
     if hi < I64[1]:
-        vs["rand-above"] = rng.randint(hi + 1, min(I64[1], (hi + 1) * rng.choice([2, 256, 65536])))
+        vs["rand-above"] = rng.randint(hi + 1, min(I64[1], (hi + 1) * rng.choice([2, 256, 65536, 2**20])))
     else:
         vs["rand-above"] = None
     if lo > I64[0]:
-        vs["rand-below"] = rng.randint(max(I64[0], (lo - 1) * rng.choice([2, 256, 65536]) - 5), lo - 1)
+        vs["rand-below"] = rng.randint(max(I64[0], (lo - 1) * rng.choice([2, 256, 65536, 2**20]) - 5), lo - 1)
     else:
         vs["rand-below"] = None
     return vs
@@ -59,10 +68,61 @@ def _readback_elem(a, idx):
     return "(print 1 (bin + (idx %d %s) 0))" % (a, " ".join(map(str, idx)))
 
 
-def build(path, t, v, rng):
-    """-> S-expression of one program storing `v` into a `t` cell along `path`, or None when the
-    combination cannot be expressed (value not representable / would need an int64 overflow)."""
+def split_sum(v, rng):
+    """a + b = v with both operands and the sum inside int64"""
+    for _ in range(20):
+        b = rng.choice([0, 1, -1, 2, -2, 7, -7, 100, -100])
+        a = v - b
+        if in64(a):
+            return a, b
+    return v, 0
+
+
+def compound_operands(how, t, v, rng, nonneg_start=False):
+    """start value (inside the type's range), operator, operand so that start op operand = v exactly."""
     lo, hi = RANGES[t]
+    if nonneg_start:
+        lo = max(lo, 0)
+    cands = [1, 2, 3, 10]
+    rng.shuffle(cands)
+    if how == "add":
+        for d in cands:
+            for start, op, operand in ((v - d, "+", d), (v + d, "+", -d)):
+                if lo <= start <= hi:
+                    return start, op, operand
+        return None
+    if how == "sub":
+        for d in cands:
+            for start, op, operand in ((v + d, "-", d), (v - d, "-", -d)):
+                if lo <= start <= hi:
+                    return start, op, operand
+        return None
+    if how == "mul":
+        for d in (2, 3, -1, -2, 1):
+            if v % d == 0 and lo <= v // d <= hi:
+                return v // d, "*", d
+        return None
+    raise ValueError(how)
+
+
+def incdec_start(t, v, rng):
+    """start value inside the range from which one ++ / -- reaches v"""
+    lo, hi = RANGES[t]
+    opts = []
+    if lo <= v - 1 <= hi:
+        opts.append((v - 1, 1))
+    if lo <= v + 1 <= hi:
+        opts.append((v + 1, 0))
+    if not opts:
+        return None
+    return rng.choice(opts)
+
+
+def build(path, t, v, rng):
+    """-> (sexpr, mech_query, extra) for one program storing `v` into a `t` cell along `path`:
+    the program prints the target cell first and then len(extra) neighbour cells whose values must be
+    `extra`; mech_query is the line for `c04_model mech`. None when the combination cannot be
+    expressed (value not representable in int64 / start value would be outside the type)."""
     p, how = path.split(":")
     if not in64(v):
         # a literal outside int64 cannot be written as a Cb token and cannot be the result of
@@ -70,15 +130,21 @@ def build(path, t, v, rng):
         return None
     G, F, M = [], [], []
     W = "long"       # carrier type for the value on its way to the store
-    if p == "decl":
-        if how == "lit":
-            M = ["(decl 0 0 %s 1 %d)" % (t, v)]
-        elif how == "var":
-            M = ["(decl 0 0 %s 2 %d)" % (W, v), "(decl 0 0 %s 1 (v 2))" % t]
+    extra = []
+    mpath = MECH_PATH.get(path) or MECH_PATH[p]
+    query = "store %s %s %d" % (mpath, t, v)
+    if p in ("decl", "for-init"):
+        if p == "for-init":
+            M = ["(for ((decl 0 0 %s 1 %d)) (bin < (v 1) %d) ((asg (v 1) (bin + (v 1) 1))) ((print 1 (bin + (v 1) 0)) (break)))" % (t, v, I64[1])]
         else:
-            a, b = split_sum(v, rng)
-            M = ["(decl 0 0 %s 2 %d)" % (W, a), "(decl 0 0 %s 1 (bin + (v 2) %d))" % (t, b)]
-        M.append(_readback(1))
+            if how == "lit":
+                M = ["(decl 0 0 %s 1 %d)" % (t, v)]
+            elif how == "var":
+                M = ["(decl 0 0 %s 2 %d)" % (W, v), "(decl 0 0 %s 1 (v 2))" % t]
+            else:
+                a, b = split_sum(v, rng)
+                M = ["(decl 0 0 %s 2 %d)" % (W, a), "(decl 0 0 %s 1 (bin + (v 2) %d))" % (t, b)]
+            M.append(_readback(1))
     elif p == "assign":
         M = ["(decl 0 0 %s 1 %d)" % (t, rng.choice([0, 1]))]
         if how == "lit":
@@ -108,6 +174,8 @@ def build(path, t, v, rng):
         start, inc = r
         M = ["(arr 0 %s 1 (3) (0 %d 0))" % (t, start), "(incdec %d %d (idx 1 1))" % (1 if how == "pre" else 0, inc),
              _readback_elem(1, [1]), _readback_elem(1, [0]), _readback_elem(1, [2])]
+        extra = [0, 0]
+        query = "update %s %s %d %d" % (mpath, t, start, 1 if inc else -1)
     elif p == "arg":
         if how == "default":
             F = ["(F 1 long ((1 long) (2 %s %d)) ((ret (bin + (v 2) (v 1)))))" % (t, v)]
@@ -134,14 +202,18 @@ def build(path, t, v, rng):
             M.append("(asg (idx 1 %d) %d)" % (k, v))
         else:
             M = ["(decl 0 0 %s 2 %d)" % (W, v)] + M + ["(asg (idx 1 %d) (v 2))" % k]
-        M += [_readback_elem(1, [j]) for j in range(n)]
+        M += [_readback_elem(1, [k])] + [_readback_elem(1, [j]) for j in range(n) if j != k]
+        extra = [0] * (n - 1)
     elif p == "elem1-compound":
-        r = compound_operands("add", t, v, rng)
+        # (a negative char element as the left operand of + crashes the interpreter: start >= 0 for char)
+        r = compound_operands("add", t, v, rng, nonneg_start=(t == "char"))
         if r is None:
             return None
         start, op, operand = r
-        M = ["(arr 0 %s 1 (3) (0 %d 0))" % (t, start), "(casg %s (idx 1 1) %d)" % (op, operand)]
-        M += [_readback_elem(1, [j]) for j in range(3)]
+        M = ["(arr 0 %s 1 (3) (0 %d 0))" % (t, start), "(casg %s (idx 1 1) %d)" % (op, operand),
+             _readback_elem(1, [1]), _readback_elem(1, [0]), _readback_elem(1, [2])]
+        extra = [0, 0]
+        query = "update %s %s %d %d" % (mpath, t, start, operand)
     elif p == "elemN":
         dims = [2, 3] if how.endswith("2") else [2, 2, 2]
         idx = [rng.randrange(d) for d in dims]
@@ -150,25 +222,28 @@ def build(path, t, v, rng):
             M.append("(asg (idx 1 %s) %d)" % (" ".join(map(str, idx)), v))
         else:
             M = ["(decl 0 0 %s 2 %d)" % (W, v)] + M + ["(asg (idx 1 %s) (v 2))" % " ".join(map(str, idx))]
-        M.append(_readback_elem(1, idx))
+        other = [(idx[0] + 1) % dims[0]] + idx[1:]
+        M += [_readback_elem(1, idx), _readback_elem(1, other)]
+        extra = [0]
     elif p == "literal1":
         n = 3
         k = rng.randrange(n)
+        elts = ["0"] * n
         if how == "lit":
-            elts = ["0"] * n
             elts[k] = str(v)
             M = ["(arr 0 %s 1 (%d) (%s))" % (t, n, " ".join(elts))]
         else:
-            elts = ["0"] * n
             elts[k] = "(v 2)"
             M = ["(decl 0 0 %s 2 %d)" % (W, v), "(arr 0 %s 1 (%d) (%s))" % (t, n, " ".join(elts))]
-        M += [_readback_elem(1, [j]) for j in range(n)]
+        M += [_readback_elem(1, [k])] + [_readback_elem(1, [j]) for j in range(n) if j != k]
+        extra = [0] * (n - 1)
     elif p == "literalN":
-        dims = [2, 2]
         elts = ["0"] * 4
         k = rng.randrange(4)
         elts[k] = str(v)
-        M = ["(arr 0 %s 1 (2 2) (%s))" % (t, " ".join(elts)), _readback_elem(1, [k // 2, k % 2])]
+        o = (k + 1) % 4
+        M = ["(arr 0 %s 1 (2 2) (%s))" % (t, " ".join(elts)), _readback_elem(1, [k // 2, k % 2]), _readback_elem(1, [o // 2, o % 2])]
+        extra = [0]
     elif p == "global":
         if how == "scalar":
             G = ["(G 0 %s 1 () (%d))" % (t, v)]
@@ -178,12 +253,11 @@ def build(path, t, v, rng):
             k = rng.randrange(3)
             elts[k] = str(v)
             G = ["(G 0 %s 1 (3) (%s))" % (t, " ".join(elts))]
-            M = [_readback_elem(1, [j]) for j in range(3)]
+            M = [_readback_elem(1, [k])] + [_readback_elem(1, [j]) for j in range(3) if j != k]
+            extra = [0, 0]
     elif p == "static":
         F = ["(F 1 long () ((decl 0 1 %s 1 %d) (ret (bin + (v 1) 0))))" % (t, v)]
         M = ["(print 1 (call 1))"]
-    elif p == "for-init":
-        M = ["(for ((decl 0 0 %s 1 %d)) (bin < (v 1) %d) ((asg (v 1) (bin + (v 1) 1))) ((print 1 (bin + (v 1) 0)) (break)))" % (t, v, I64[1])]
     elif p == "from-elemN":
         # the stored VALUE is a bare multi-dimensional element (long carrier array)
         M0 = ["(arr 0 long 2 (2 2) (0 0 0 %d))" % v]
@@ -197,71 +271,102 @@ def build(path, t, v, rng):
             M = ["(decl 0 0 long 3 (call 1))", _readback(3)]
     else:
         raise ValueError(path)
-    return "(P (%s) (%s) (%s))" % (" ".join(G), " ".join(F), " ".join(M))
+    return "(P (%s) (%s) (%s))" % (" ".join(G), " ".join(F), " ".join(M)), query, extra
 
 
-def split_sum(v, rng):
-    """a + b = v with both operands and the sum inside int64"""
-    for _ in range(20):
-        b = rng.choice([0, 1, -1, 2, -2, 7, -7, 100, -100])
-        a = v - b
-        if in64(a):
-            return a, b
-    return v, 0
-
-
-def compound_operands(how, t, v, rng):
-    """start value (inside the type's range), operator, operand so that start op operand = v exactly."""
-    lo, hi = RANGES[t]
-    if how == "add":
-        cands = [1, 2, 3, 10]
-        rng.shuffle(cands)
-        for d in cands:
-            for start, op, operand in ((v - d, "+", d), (v + d, "+", -d)):
-                if lo <= start <= hi:
-                    return start, op, operand
-        return None
-    if how == "sub":
-        cands = [1, 2, 3, 10]
-        rng.shuffle(cands)
-        for d in cands:
-            for start, op, operand in ((v + d, "-", d), (v - d, "-", -d)):
-                if lo <= start <= hi:
-                    return start, op, operand
-        return None
-    if how == "mul":
-        for d in (2, 3, -1, -2, 1):
-            if v % d == 0 and lo <= v // d <= hi and in64(v // d):
-                return v // d, "*", d
-        return None
-    raise ValueError(how)
-
-
-def incdec_start(t, v, rng):
-    """start value inside the range from which one ++ / -- reaches v"""
-    lo, hi = RANGES[t]
-    opts = []
-    if lo <= v - 1 <= hi:
-        opts.append((v - 1, 1))
-    if lo <= v + 1 <= hi:
-        opts.append((v + 1, 0))
-    if not opts:
-        return None
-    return rng.choice(opts)
-
-
-def matrix(rng):
-    """-> list of (sexpr, meta) with meta = {path, type, kind, value}"""
+def matrix(rng, types=None, paths=None):
+    """-> list of (sexpr, meta) with meta = {path, type, kind, value, query, extra}"""
     out = []
-    for t in TYPES:
+    for t in (types or TYPES):
         vals = values_for(t, rng)
-        for path in PATHS:
+        for path in (paths or PATHS):
             for kind in KINDS:
                 v = vals.get(kind)
                 if v is None:
                     continue
-                sx = build(path, t, v, rng)
-                if sx is None:
+                r = build(path, t, v, rng)
+                if r is None:
                     continue
-                out.append((sx, {"path": path, "type": t, "kind": kind, "value": v}))
+                sx, query, extra = r
+                out.append((sx, {"path": path, "type": t, "kind": kind, "value": v, "query": query, "extra": extra}))
     return out
+
+
+# ---------------------------------------------------------------------------------------------
+# random programs mixing the store paths (inside the fragment where today's code is correct)
+# ---------------------------------------------------------------------------------------------
+NARROW = ["tiny", "short", "int", "char", "utiny", "ushort", "uint", "ulong", "long"]
+
+
+def mixed_program(rng):
+    """A straight-line program of 4-10 stores over 3-5 typed cells; every store is on a path on
+    which Mech refines Spec (declaration, assignment, compound assignment, argument, signed 1-D
+    element, global scalar); values are aimed at the limits of the target's type."""
+    nvars = rng.randint(3, 5)
+    G, F, M = [], [], []
+    cells = []          # (id, type)
+    vid = [0]
+
+    def fresh():
+        vid[0] += 1
+        return vid[0]
+
+    def val(t):
+        lo, hi = RANGES[t]
+        k = rng.random()
+        if k < 0.55:
+            return rng.choice([lo, hi, lo + 1, hi - 1, 0, 1, -1 if lo < 0 else 2])
+        if k < 0.75:
+            return rng.randint(lo, hi)
+        if k < 0.9:
+            return rng.choice([lo - 1, hi + 1, -1, lo - rng.randint(1, 300), hi + rng.randint(1, 300)])
+        return rng.randint(-2**40, 2**40)
+
+    def lit(v):
+        return str(max(I64[0], min(I64[1], v)))
+
+    carrier = fresh()
+    M.append("(decl 0 0 long %d 0)" % carrier)
+    for _ in range(rng.randint(0, 2)):
+        t = rng.choice(NARROW)
+        x = fresh()
+        G.append("(G 0 %s %d () (%s))" % (t, x, lit(val(t))))
+        cells.append((x, t))
+    # a function with a narrow parameter type for the argument path
+    pt = rng.choice(NARROW)
+    pv = fresh()
+    F.append("(F 1 long ((%d %s)) ((ret (bin + (v %d) 0))))" % (pv, pt, pv))
+    arr = None
+    if rng.random() < 0.6:
+        at = rng.choice(["tiny", "short", "int", "long"])
+        arr = (fresh(), at, rng.randint(2, 4))
+        M.append("(arr 0 %s %d (%d) ())" % (at, arr[0], arr[2]))
+    for _ in range(nvars):
+        t = rng.choice(NARROW)
+        x = fresh()
+        M.append("(decl 0 0 %s %d %s)" % (t, x, lit(val(t))))
+        cells.append((x, t))
+        M.append(_readback(x))
+    for _ in range(rng.randint(4, 10)):
+        x, t = rng.choice(cells)
+        k = rng.random()
+        if k < 0.3:
+            M.append("(asg (v %d) %s)" % (x, lit(val(t))))
+        elif k < 0.45:
+            y, _ = rng.choice(cells)
+            M.append("(asg (v %d) (v %d))" % (x, y))
+        elif k < 0.65:
+            op = rng.choice(["+", "-", "*"])
+            d = rng.choice([1, 2, -1, 3, 100, 255, 256, 65535, 65536]) if op != "*" else rng.choice([2, -1, 3, 16, 256])
+            M.append("(casg %s (v %d) %d)" % (op, x, d))
+        elif k < 0.8:
+            M.append("(asg (v %d) (call 1 %s))" % (carrier, lit(val(pt))))
+            M.append(_readback(carrier))
+        elif arr is not None:
+            i = rng.randrange(arr[2])
+            M.append("(asg (idx %d %d) %s)" % (arr[0], i, lit(val(arr[1]))))
+            M.append(_readback_elem(arr[0], [i]))
+        else:
+            M.append("(asg (v %d) (bin + (v %d) %d))" % (x, x, rng.choice([1, -1, 127, -128, 32767])))
+        M.append(_readback(x))
+    return "(P (%s) (%s) (%s))" % (" ".join(G), " ".join(F), " ".join(M))
